@@ -201,9 +201,29 @@ HISTORY_MATERIALS = ("OgdenRoxburgh", "OgdenRoxburghAD", "Plastic", "Visco")
 # ----------------------------------------------------------------------------------------
 # world
 # ----------------------------------------------------------------------------------------
+def run_prelude(doc):
+    """Earlier, unrelated activity in the same process (post-processing of another model of the
+    same kind with the public helpers): it must not change what a model created afterwards does."""
+    for op in doc.get("prelude", []):
+        mesh = build_mesh(doc["mesh"])
+        region = build_region(mesh, doc.get("region"))
+        field = fem.FieldContainer([fem.Field(region, dim=mesh.dim)])
+        F = field.extract()[0]
+        try:
+            if op == "extrapolate":
+                fem.tools.extrapolate(F, region, mean=not hasattr(region.quadrature, "inv"))
+            elif op == "project":
+                fem.project(F, region)
+            else:
+                raise ValueError(op)
+        except (AttributeError, NotImplementedError, ValueError):
+            pass  # the helper refuses this element / quadrature combination: no earlier activity then
+
+
 class World:
     def __init__(self, doc, umat_wrap=None):
         self.doc = doc
+        run_prelude(doc)
         self.mesh = build_mesh(doc["mesh"])
         self.region = build_region(self.mesh, doc.get("region"))
         self.field = build_field(self.region, doc.get("field", {}))
